@@ -62,7 +62,12 @@ func (h HTTPIndexHandler) get(indexName string, w http.ResponseWriter) {
 func (h HTTPIndexHandler) head(indexName string, w http.ResponseWriter) {
 	r, err := h.s.GetIndexReader(indexName)
 	if err != nil {
-		w.WriteHeader(http.StatusNotFound)
+		// Only report an index as missing if it is, like GET does
+		if _, ok := err.(NoSuchObject); ok || os.IsNotExist(err) {
+			w.WriteHeader(http.StatusNotFound)
+		} else {
+			w.WriteHeader(http.StatusBadRequest)
+		}
 		return
 	}
 	r.Close()
